@@ -502,9 +502,34 @@ def flat_pairs(ctx):
     rng = ctx.rng
     pairs = []
 
+    class _Stub:
+        """stands in for a Random node with the given base block grid: any other attribute the method reads (a helper
+        property a refactor may introduce) is taken from the real class's descriptor / function, evaluated on the stub"""
+
+        def __init__(self, nb):
+            self._base_chunks = tuple((1,) * n for n in nb)
+
+        def __getattr__(self, name):
+            attr = Random.__dict__.get(name)
+            if attr is None:
+                for klass in Random.__mro__[1:]:
+                    if name in klass.__dict__:
+                        attr = klass.__dict__[name]
+                        break
+            if attr is None:
+                raise AttributeError(name)
+            func = getattr(attr, "func", None) or getattr(attr, "fget", None)
+            if func is not None:  # cached_property / property
+                return func(self)
+            if callable(attr):
+                return types.MethodType(attr, self)
+            return attr
+
     def impl(nb, bid):
-        stub = types.SimpleNamespace(_base_chunks=tuple((1,) * n for n in nb))
-        return f"ok {Random._block_id_to_flat_index(stub, tuple(bid))}"
+        try:
+            return f"ok {Random._block_id_to_flat_index(_Stub(nb), tuple(bid))}"
+        except Exception as e:  # a disagreement with the model, not a harness error
+            return f"err {type(e).__name__}"
 
     hi = ctx.scale(3, 4)
     for r in range(0, 4):
@@ -928,6 +953,11 @@ def targeted(ctx):
                 ctx.fail("random:hang", case, "building / optimising / computing a random array does not finish within 60 s")
                 ctx.notes["targeted_search"] = f"stopped after a hang ({tried} arrays)"
                 return
+            except Exception as e:
+                import traceback
+
+                ctx.fail("random:raises", dict(case, error=repr(e)[:300], traceback=traceback.format_exc()[-1200:]),
+                         "recomputing / rebuilding / deriving from a seeded random array raises")
     ctx.notes["targeted_search"] = f"{tried} random arrays with the disagreeing block grids: recompute / slices / culling / fusion vs first realisation"
 
 
@@ -984,6 +1014,8 @@ def run(ctx, replay=None):
                 with_timeout(120, lambda: check_case(ctx, c, progs=[case["prog"]] if "prog" in case else None, nprog=4))
             except Hang:
                 ctx.fail("random:hang", c, "building / optimising / computing a random array does not finish within 120 s")
+            except Exception as e:
+                ctx.fail("random:raises", dict(c, error=repr(e)[:300]), "recomputing / rebuilding / deriving from a seeded random array raises")
         else:
             probe_known(ctx)
             probe_generic_array_param(ctx)
